@@ -199,6 +199,15 @@ def run(ctx):
     roundtrip("T/roundtrip/Call-0-args", ("Call", V[0], ()), {})
     roundtrip("T/roundtrip/Call-2-args", ("Call", V[0], (V[1], V[2])), {})
     n_cases += 5
+    # keyword arguments: none positional, several of each
+    roundtrip("T/roundtrip/CallWithKwargs-keywords-only",
+              ("CallWithKwargs", V[0], (), (("k", V[1]),)), {})
+    roundtrip("T/roundtrip/CallWithKwargs-2-keywords-only",
+              ("CallWithKwargs", V[0], (), (("k", V[1]), ("m", V[2]))), {})
+    roundtrip("T/roundtrip/CallWithKwargs-2-args-2-keywords",
+              ("CallWithKwargs", V[0], (V[1], V[2]), (("k", V[3]), ("m", V[1]))),
+              {})
+    n_cases += 3
     ctx.floor("2-level nestings", n_cases, 1000)
 
     # ---- token agreement ---------------------------------------------------------
